@@ -5,13 +5,16 @@
 // Supported subset (everything else is REFUSED: the function is replaced by
 // `Definition <name>_unrecognised : GoSem.unrecognised := ...`, so that its tie theorem no longer compiles):
 //
-//	func      F(p T, ...) R | F(...) (R1, R2) | (r *S) M(...) R | (r S) M(...) R      no named results, no variadics
+//	func      F(p T, ...) R | F(...) (R1, R2) | F(...) (r R, ...) | (r *S) M(...) R | (r S) M(...) R      no variadics
+//	          named results are local variables that start at their zero value; a bare `return` returns them
 //	T, R      bool | []byte | uint8 | byte | uint32 | uint64 | int | error (result only)
 //	          | S | *S (receiver only) | interface type of the root package (parameter only, modelled by "is nil")
 //	          | *pkg.V (parameter only): V a struct of the root package of which fields are only read ("view" record)
 //	          | a named integer type (type T int) of the same or of the root package
 //	          where S is a struct of the same package whose fields have the scalar types above
 //	stmt      x := e | x = e | x op= e | x++ | s[i] = e | s[i] op= e     (s a local made by make([]byte, n))
+//	          | x, y := e1, e2 | x, y = e1, e2   (all right-hand sides are evaluated before any variable is bound)
+//	          | var x, y T | var x T = e | var x = e | v.f = e | v.f op= e   (v a local struct VALUE, not a pointer)
 //	          | if [x := e;] c { ... } [else { ... } | else if ...]
 //	          | switch { case c1, c2: ... default: ... } | switch x { case A, B: ... }   (x integer or bool; no init,
 //	                no fallthrough, break only as the last statement of a clause) = the if / else-if chain
@@ -22,8 +25,12 @@
 //	expr      x | literal int | true | false | nil (error result) | package constant / []byte variable / errors.New variable
 //	          | len(e) | e[i] | e[lo:hi] | e[:hi] | e[lo:] | e[:] | make([]byte, n) | []byte(stringConstant)
 //	          | bytes.Equal(a, b) | bytes.HasPrefix(a, b) | bytes.HasSuffix(a, b) | bytes.Compare(a, b) == 0 | != 0
-//	          | check.IfNil(interfaceParameter) | F(args) with F in the whitelist
-//	          | append(a, b...) on []byte (VALUE of the result only) | big.NewInt(k).SetUint64(e).Bytes()
+//	          | check.IfNil(interfaceParameter)
+//	          | F(args) | pkg.F(args): F a plain function (no receiver) of a translated package that is itself
+//	                translatable -- the whitelist below is the list of ROOTS, callees are translated on demand
+//	                (recursion is refused; the Gallina name of a callee must not collide with the vocabulary)
+//	          | append(a, b...) on []byte (VALUE of the result only)
+//	          | big.NewInt(k).SetUint64(e).Bytes() | new(big.Int).SetUint64(e).Bytes() | []byte{e, ...}
 //	          | S{} | S{f: e, ...} | v.f | p.f (p *S) | !e | e && e | e || e (right operand evaluated conditionally)
 //	          | e == e | != | < | <= | > | >= | e + e | - | * | e & e | e | e (unsigned)
 //
@@ -36,6 +43,7 @@ import (
 	"go/parser"
 	"go/token"
 	"go/types"
+	"math/big"
 	"os"
 	"path/filepath"
 	"sort"
@@ -210,6 +218,7 @@ type pureGen struct {
 	modPath  string
 	pkgs     map[string]*purePkg
 	done     map[string]*fnResult // coq name -> result
+	donePkg  map[string]string    // coq name -> directory of the package + key of the function it was made from
 	busy     map[string]bool
 	order    []string
 	records  map[string]string // struct name -> Record text, or "" if the struct is not translatable
@@ -356,7 +365,8 @@ type tr struct {
 	ntmp    int
 	results []gtype
 	freshOK int
-	nsyn    int // synthetic variables (switch tag, hidden range index): names with a ' cannot clash with Go identifiers
+	nsyn    int      // synthetic variables (switch tag, hidden range index): names with a ' cannot clash with Go identifiers
+	named   []string // names of the named results, in order (nil: unnamed results)
 }
 
 func (t *tr) refuse(n ast.Node, format string, a ...interface{}) {
@@ -677,6 +687,26 @@ func zeroValue(g gtype) string {
 	return "UNSUPPORTED"
 }
 
+// zeroOf: the zero value of a variable of type ty ("each element of such a variable or value is set to the zero
+// value for its type: false for booleans, 0 for numeric types, ... nil for ... slices"; a struct: every field)
+func (t *tr) zeroOf(ty gtype, at ast.Node) string {
+	switch ty.k {
+	case kBool, kBytes, kU8, kU32, kU64, kInt:
+		return zeroValue(ty)
+	case kError:
+		return "go_nil"
+	case kStruct:
+		names, types := t.structFields(ty.name)
+		var fs []string
+		for _, n := range names {
+			fs = append(fs, fmt.Sprintf("%s_%s := %s", ty.name, n, zeroValue(types[n])))
+		}
+		return "{| " + strings.Join(fs, "; ") + " |}"
+	}
+	t.refuse(at, "zero value of type %s", ty)
+	return ""
+}
+
 // pkgObject: a package-level constant or variable usable in an expression
 func (t *tr) pkgObject(pp *purePkg, name string, at ast.Node) (gtype, string) {
 	ex, ok := pp.pi.consts[name]
@@ -760,35 +790,71 @@ func (t *tr) pkgOf(x ast.Expr) string {
 	return t.pp.imports[t.fname][id.Name]
 }
 
+// callee: the function a call expression names, if it is a plain function (no receiver) declared in one of the
+// translated packages.  It is translated on demand (g.translate): the whitelist is the list of roots only.
 func (t *tr) callee(x *ast.CallExpr) (*whiteEntry, *purePkg) {
+	plain := func(pp *purePkg, name string) (*whiteEntry, *purePkg) {
+		if fd, ok := pp.funcs[name]; ok && fd.Recv == nil {
+			return &whiteEntry{dir: pp.dir, file: pp.funcFile[name], name: name}, pp
+		}
+		return nil, nil
+	}
 	switch f := x.Fun.(type) {
 	case *ast.Ident:
 		if t.isLocal(f.Name) {
 			return nil, nil
 		}
-		for i := range pureWhitelist {
-			w := &pureWhitelist[i]
-			if w.dir == t.pp.dir && w.recv == "" && w.name == f.Name {
-				return w, t.pp
-			}
-		}
+		return plain(t.pp, f.Name)
 	case *ast.SelectorExpr:
 		p := t.pkgOf(f.X)
 		if p == "" {
 			return nil, nil
 		}
 		for _, pp := range t.g.pkgs {
-			if pp.importPath == p {
-				for i := range pureWhitelist {
-					w := &pureWhitelist[i]
-					if w.dir == pp.dir && w.recv == "" && w.name == f.Sel.Name {
-						return w, pp
-					}
-				}
+			if pp.importPath == p && ast.IsExported(f.Sel.Name) {
+				return plain(pp, f.Sel.Name)
 			}
 		}
 	}
 	return nil, nil
+}
+
+// The identifiers that the generated text uses from outside module P (Base/GoSem.v, Base/Bytes.v, the standard
+// library) and the keywords of Gallina: a Go function of one of these names would shadow the vocabulary for the
+// definitions that follow it in module P, so it is refused.  Variables are v_<name>, temporaries t<number>.
+var reservedCoqNames = func() map[string]bool {
+	m := map[string]bool{}
+	for _, n := range strings.Fields(`
+		go_ret go_bind go_len go_index go_slice go_slice_to go_slice_from go_make_bytes go_set_index go_append
+		go_big_uint64_bytes go_bytes_lit go_deref go_nil go_err go_break go_continue go_for_from go_for_upto go_for_range
+		goerror unrecognised Unrecognised GoSem GoNotations bytes_equal bytes_has_prefix bytes_has_suffix
+		u8_add u8_sub u8_mul u32_add u32_sub u32_mul u64_add u64_sub u64_mul u_and u_or int_add int_sub int_mul wrap_int
+		two63Z two64Z two64 two32 u64 u32 bytes byte b2n n2b beqb
+		negb andb orb bool true false option Some None list nil cons length tt unit pair fst snd prod nat O S N Z
+		N0 Npos Z0 Zpos Zneg positive xH xO xI List Bool String string EmptyString Ascii ascii C P EV Coq
+		fun forall exists let in if then else match with end as at return fix cofix struct using where Type Set Prop SProp
+		Definition Record Module End Import Export Require From Theorem Lemma Proof Qed Defined IF for`) {
+		m[n] = true
+	}
+	return m
+}()
+
+func validCoqFunctionName(n string) bool {
+	if n == "" || reservedCoqNames[n] || strings.HasPrefix(n, "v_") {
+		return false
+	}
+	for i, c := range n {
+		switch {
+		case c >= 'a' && c <= 'z', c >= 'A' && c <= 'Z', c == '_':
+		case c >= '0' && c <= '9' && i > 0:
+		default:
+			return false
+		}
+	}
+	if n[0] == 't' && len(n) > 1 && strings.Trim(n[1:], "0123456789") == "" {
+		return false // t<number>: the temporaries
+	}
+	return n != "_"
 }
 
 func (t *tr) builtin(x *ast.CallExpr) string {
@@ -803,8 +869,8 @@ func (t *tr) builtin(x *ast.CallExpr) string {
 	return ""
 }
 
-// bigUint64Bytes: the one use of math/big that is translated, big.NewInt(<literal>).SetUint64(e).Bytes()
-// (SetUint64 overwrites the value given to NewInt).  Returns e, or nil if x is not of this shape.
+// bigUint64Bytes: the one use of math/big that is translated, big.NewInt(<literal>).SetUint64(e).Bytes() or
+// new(big.Int).SetUint64(e).Bytes() (SetUint64 overwrites the value given to NewInt).  Returns e, or nil if x is not of this shape.
 func (t *tr) bigUint64Bytes(x *ast.CallExpr) ast.Expr {
 	s1, ok := x.Fun.(*ast.SelectorExpr)
 	if !ok || s1.Sel.Name != "Bytes" || len(x.Args) != 0 {
@@ -820,6 +886,13 @@ func (t *tr) bigUint64Bytes(x *ast.CallExpr) ast.Expr {
 	}
 	c3, ok := s2.X.(*ast.CallExpr)
 	if !ok || len(c3.Args) != 1 || c3.Ellipsis != token.NoPos {
+		return nil
+	}
+	// new(big.Int): "The zero value for an Int represents the value 0"; SetUint64 overwrites it as well
+	if id, ok := c3.Fun.(*ast.Ident); ok && id.Name == "new" && !t.isLocal("new") && !t.pp.localNames["new"] {
+		if se, ok := c3.Args[0].(*ast.SelectorExpr); ok && se.Sel.Name == "Int" && t.pkgOf(se.X) == "math/big" {
+			return c2.Args[0]
+		}
 		return nil
 	}
 	s3, ok := c3.Fun.(*ast.SelectorExpr)
@@ -866,6 +939,15 @@ func isZeroLit(e ast.Expr) bool {
 	}
 	n, err := strconv.ParseUint(lit.Value, 0, 64)
 	return err == nil && n == 0
+}
+
+// byteSlice: the type expression []byte / []uint8 where byte / uint8 is the predeclared type here
+func (t *tr) byteSlice(e ast.Expr) bool {
+	if !isByteSliceType(e) {
+		return false
+	}
+	n := e.(*ast.ArrayType).Elt.(*ast.Ident).Name
+	return !t.isLocal(n) && !t.pp.localNames[n]
 }
 
 func isByteSliceType(e ast.Expr) bool {
@@ -927,7 +1009,7 @@ func (t *tr) typeOf(e ast.Expr) gtype {
 		}
 		t.refuse(e, "selector expression %s", types.ExprString(e))
 	case *ast.CallExpr:
-		if isByteSliceType(x.Fun) && len(x.Args) == 1 {
+		if t.byteSlice(x.Fun) && len(x.Args) == 1 {
 			return gtype{k: kBytes}
 		}
 		switch t.builtin(x) {
@@ -988,6 +1070,9 @@ func (t *tr) typeOf(e ast.Expr) gtype {
 			if ty.k == kStruct {
 				return ty
 			}
+		}
+		if x.Type != nil && t.byteSlice(x.Type) {
+			return gtype{k: kBytes}
 		}
 		t.refuse(e, "composite literal of this type")
 	}
@@ -1120,8 +1205,49 @@ func (t *tr) emit(e ast.Expr, ty gtype) string {
 	case *ast.UnaryExpr:
 		return "(negb " + t.expr(x.X, gtype{k: kBool}) + ")"
 	case *ast.BinaryExpr:
+		if t.typeOf(x).k == kUntyped {
+			// a constant expression: "Constant expressions are always evaluated exactly; intermediate values and the
+			// constants themselves may require precision significantly larger than any predeclared type"
+			v := t.constValue(x)
+			lo, hi := new(big.Int), new(big.Int)
+			switch ty.k {
+			case kU8:
+				hi.SetUint64(1<<8 - 1)
+			case kU32:
+				hi.SetUint64(1<<32 - 1)
+			case kU64:
+				hi.SetUint64(1<<64 - 1)
+			case kInt:
+				lo.SetInt64(-1 << 63)
+				hi.SetInt64(1<<63 - 1)
+			default:
+				t.refuse(e, "integer constant expression where %s is expected", ty)
+			}
+			if v.Cmp(lo) < 0 || v.Cmp(hi) > 0 {
+				t.refuse(e, "constant %s overflows %s", v, ty)
+			}
+			if v.Sign() < 0 {
+				return "(" + v.String() + ")%Z"
+			}
+			return intLit(v.String(), ty)
+		}
 		return t.emitBinary(x, ty)
 	case *ast.CompositeLit:
+		if ty.k == kBytes {
+			// []byte{e1, ..., en}: a new slice of length n holding the values, evaluated left to right (no keys)
+			term := "nil"
+			var els []string
+			for _, el := range x.Elts {
+				if _, ok := el.(*ast.KeyValueExpr); ok {
+					t.refuse(el, "[]byte literal with an index key")
+				}
+				els = append(els, t.expr(el, gtype{k: kU8}))
+			}
+			for k := len(els) - 1; k >= 0; k-- {
+				term = fmt.Sprintf("(cons %s %s)", els[k], term)
+			}
+			return "(go_bytes_lit " + term + ")"
+		}
 		names, types := t.structFields(ty.name)
 		vals := map[string]string{}
 		for _, el := range x.Elts {
@@ -1154,6 +1280,59 @@ func (t *tr) emit(e ast.Expr, ty gtype) string {
 	}
 	t.refuse(e, "expression form %T", e)
 	return ""
+}
+
+// constValue: the exact value of an untyped integer constant expression (typeOf has classified it as kUntyped)
+func (t *tr) constValue(e ast.Expr) *big.Int {
+	switch x := e.(type) {
+	case *ast.ParenExpr:
+		return t.constValue(x.X)
+	case *ast.BasicLit:
+		if v, ok := new(big.Int).SetString(x.Value, 0); ok && x.Kind == token.INT {
+			return v
+		}
+	case *ast.Ident, *ast.SelectorExpr:
+		pp, name := t.pp, ""
+		if id, ok := x.(*ast.Ident); ok {
+			name = id.Name
+		} else {
+			se := x.(*ast.SelectorExpr)
+			name = se.Sel.Name
+			pp = nil
+			for _, q := range t.g.pkgs {
+				if q.importPath == t.pkgOf(se.X) {
+					pp = q
+				}
+			}
+		}
+		if pp != nil && !t.isLocal(name) {
+			if ex, ok := pp.pi.consts[name]; ok && pp.isConst[name] {
+				if v, ok := eval(pp.pi, ex, pp.pi.iota[name]); ok && v.kind == "int" {
+					return new(big.Int).SetUint64(v.n)
+				}
+			}
+		}
+	case *ast.BinaryExpr:
+		a, b := t.constValue(x.X), t.constValue(x.Y)
+		switch x.Op {
+		case token.ADD:
+			return new(big.Int).Add(a, b)
+		case token.SUB:
+			return new(big.Int).Sub(a, b)
+		case token.MUL:
+			return new(big.Int).Mul(a, b)
+		case token.AND:
+			if a.Sign() >= 0 && b.Sign() >= 0 {
+				return new(big.Int).And(a, b)
+			}
+		case token.OR:
+			if a.Sign() >= 0 && b.Sign() >= 0 {
+				return new(big.Int).Or(a, b)
+			}
+		}
+	}
+	t.refuse(e, "constant expression the generator cannot evaluate exactly")
+	return nil
 }
 
 // emitBase: operand of an index expression or of len / bytes.Equal / return: a fresh variable may appear here
@@ -1206,7 +1385,7 @@ func (t *tr) emitCall(x *ast.CallExpr, ty gtype) string {
 	if e := t.bigUint64Bytes(x); e != nil {
 		return "(go_big_uint64_bytes " + t.expr(e, gtype{k: kU64}) + ")"
 	}
-	if isByteSliceType(x.Fun) && len(x.Args) == 1 {
+	if t.byteSlice(x.Fun) && len(x.Args) == 1 {
 		at := t.typeOf(x.Args[0])
 		if at.k != kStr {
 			t.refuse(x, "conversion []byte(%s)", at)
@@ -1223,7 +1402,7 @@ func (t *tr) emitCall(x *ast.CallExpr, ty gtype) string {
 		}
 		return "(go_len " + t.emitBase(x.Args[0]) + ")"
 	case "make":
-		if len(x.Args) != 2 || !isByteSliceType(x.Args[0]) {
+		if len(x.Args) != 2 || !t.byteSlice(x.Args[0]) {
 			t.refuse(x, "make: only make([]byte, n)")
 		}
 		n := t.expr(x.Args[1], gtype{k: kInt})
@@ -1476,6 +1655,9 @@ func (t *tr) assignedOuter(list []ast.Stmt) []string {
 		if ix, ok := e.(*ast.IndexExpr); ok {
 			e = ix.X
 		}
+		if se, ok := e.(*ast.SelectorExpr); ok {
+			e = se.X
+		}
 		if id, ok := e.(*ast.Ident); ok {
 			if _, ok := t.env[id.Name]; ok {
 				set[id.Name] = true
@@ -1535,11 +1717,18 @@ func (t *tr) block(list []ast.Stmt, m mode, ind string) string {
 		if m.k == mJoin {
 			t.refuse(s, "return inside a conditional that also falls through")
 		}
-		if len(x.Results) != len(t.results) {
-			t.refuse(s, "return with %d values, function has %d results", len(x.Results), len(t.results))
+		results := x.Results
+		if len(results) == 0 && len(t.named) > 0 {
+			// "a "return" statement without operands returns the values of the named result variables" (the function has no defer)
+			for _, n := range t.named {
+				results = append(results, &ast.Ident{NamePos: x.Pos(), Name: n})
+			}
+		}
+		if len(results) != len(t.results) {
+			t.refuse(s, "return with %d values, function has %d results", len(results), len(t.results))
 		}
 		var vs []string
-		for i, r := range x.Results {
+		for i, r := range results {
 			if _, ok := r.(*ast.Ident); ok {
 				t.freshOK++
 			}
@@ -1563,6 +1752,8 @@ func (t *tr) block(list []ast.Stmt, m mode, ind string) string {
 		return t.assignInd(as, s, ind) + t.block(rest, m, ind)
 	case *ast.AssignStmt:
 		return t.assignInd(x, s, ind) + t.block(rest, m, ind)
+	case *ast.DeclStmt:
+		return t.declStmt(x, ind) + t.block(rest, m, ind)
 	case *ast.BlockStmt:
 		t.refuse(s, "nested block statement")
 	case *ast.IfStmt:
@@ -1578,9 +1769,77 @@ func (t *tr) block(list []ast.Stmt, m mode, ind string) string {
 	return ""
 }
 
+// parallelAssign: x, y := e1, e2 | x, y = e1, e2 with plain variables on the left.  "The assignment proceeds in two
+// phases.  First, the operands of index expressions and pointer indirections on the left and the expressions on
+// the right are all evaluated in the usual order.  Second, the assignments are carried out in left-to-right order."
+// Every right-hand side is bound to a temporary before the first variable is bound.
+func (t *tr) parallelAssign(x *ast.AssignStmt, at ast.Stmt, ind string) string {
+	if len(x.Lhs) != len(x.Rhs) || (x.Tok != token.DEFINE && x.Tok != token.ASSIGN) {
+		t.refuse(at, "assignment with several operands that is not `x, y := e1, e2` or `x, y = e1, e2`")
+	}
+	seen := map[string]bool{}
+	var names []string
+	var tys []gtype
+	for i, l := range x.Lhs {
+		id, ok := l.(*ast.Ident)
+		if !ok || id.Name == "_" {
+			t.refuse(at, "assignment with several operands: only plain variables on the left")
+		}
+		if seen[id.Name] {
+			t.refuse(at, "variable %s assigned twice in one statement", id.Name)
+		}
+		seen[id.Name] = true
+		var ty gtype
+		if x.Tok == token.DEFINE {
+			// (Go allows `:=` to re-use variables of the same scope when at least one is new; here all must be new)
+			if t.isLocal(id.Name) {
+				t.refuse(at, "%s := ... redeclares or shadows a variable in scope", id.Name)
+			}
+			ty = t.typeOf(x.Rhs[i])
+			if ty.k == kUntyped {
+				ty = gtype{k: kInt}
+			}
+			switch ty.k {
+			case kBool, kBytes, kU8, kU32, kU64, kInt, kStruct:
+			default:
+				t.refuse(at, "variable of type %s", ty)
+			}
+		} else {
+			v, ok := t.env[id.Name]
+			if !ok {
+				t.refuse(at, "assignment to %s, which is not a local variable", id.Name)
+			}
+			if v.typ.k == kIface || v.typ.k == kPtr {
+				t.refuse(at, "assignment to a variable of type %s", v.typ)
+			}
+			ty = v.typ
+		}
+		names = append(names, id.Name)
+		tys = append(tys, ty)
+	}
+	var tmps []string
+	out := ""
+	for i, r := range x.Rhs {
+		term := t.expr(r, tys[i])
+		out += t.flush(ind)
+		n := t.tmp()
+		out += fmt.Sprintf("%slet %s := %s in\n", ind, n, term)
+		tmps = append(tmps, n)
+	}
+	for i, n := range names {
+		out += fmt.Sprintf("%slet %s := %s in\n", ind, vname(n), tmps[i])
+		if x.Tok == token.DEFINE {
+			t.env[n] = &varInfo{typ: tys[i]}
+		} else {
+			t.env[n].fresh = false
+		}
+	}
+	return out
+}
+
 func (t *tr) assignInd(x *ast.AssignStmt, at ast.Stmt, ind string) string {
 	if len(x.Lhs) != 1 || len(x.Rhs) != 1 {
-		t.refuse(at, "assignment with several operands")
+		return t.parallelAssign(x, at, ind)
 	}
 	rhs := x.Rhs[0]
 	var binop token.Token
@@ -1679,9 +1938,117 @@ func (t *tr) assignInd(x *ast.AssignStmt, at ast.Stmt, ind string) string {
 		}
 		n := t.bind(fmt.Sprintf("go_set_index %s %s %s", vname(id.Name), idx, val))
 		return t.flush(ind) + fmt.Sprintf("%slet %s := %s in\n", ind, vname(id.Name), n)
+	case *ast.SelectorExpr:
+		// v.f = e on a local struct VALUE (a struct reached through a pointer is shared with the caller: refused):
+		// the variable is rebound to the record with that one field replaced
+		id, ok := l.X.(*ast.Ident)
+		if !ok {
+			t.refuse(at, "field assignment to something that is not a variable")
+		}
+		v, ok := t.env[id.Name]
+		if !ok || v.typ.k != kStruct {
+			t.refuse(at, "field assignment to %s, which is not a local variable of a struct type", id.Name)
+		}
+		if x.Tok == token.DEFINE {
+			t.refuse(at, ":= with a selector expression")
+		}
+		names, types := t.structFields(v.typ.name)
+		ft, ok := types[l.Sel.Name]
+		if !ok {
+			t.refuse(at, "struct %s has no field %s", v.typ.name, l.Sel.Name)
+		}
+		var term string
+		if binop != 0 {
+			term = t.expr(&ast.BinaryExpr{X: l, OpPos: x.TokPos, Op: binop, Y: rhs}, ft)
+		} else {
+			term = t.expr(rhs, ft)
+		}
+		var fs []string
+		for _, n := range names {
+			if n == l.Sel.Name {
+				fs = append(fs, fmt.Sprintf("%s_%s := %s", v.typ.name, n, term))
+			} else {
+				fs = append(fs, fmt.Sprintf("%s_%s := (%s_%s %s)", v.typ.name, n, v.typ.name, n, vname(id.Name)))
+			}
+		}
+		return t.flush(ind) + fmt.Sprintf("%slet %s := {| %s |} in\n", ind, vname(id.Name), strings.Join(fs, "; "))
 	}
 	t.refuse(at, "assignment target %T", x.Lhs[0])
 	return ""
+}
+
+// var x, y T | var x T = e | var x, y = e1, e2 (one or several specs).  Without a value the variable starts at the
+// zero value of T; with values, all of them are evaluated before the first variable of the spec is bound.
+func (t *tr) declStmt(x *ast.DeclStmt, ind string) string {
+	gd, ok := x.Decl.(*ast.GenDecl)
+	if !ok || gd.Tok != token.VAR {
+		t.refuse(x, "declaration statement other than var")
+	}
+	out := ""
+	for _, sp := range gd.Specs {
+		vs, ok := sp.(*ast.ValueSpec)
+		if !ok {
+			t.refuse(x, "declaration statement other than var")
+		}
+		if len(vs.Values) != 0 && len(vs.Values) != len(vs.Names) {
+			t.refuse(vs, "var with %d names and %d values", len(vs.Names), len(vs.Values))
+		}
+		var declared gtype
+		if vs.Type != nil {
+			declared = t.parseType(vs.Type, "local")
+			switch declared.k {
+			case kBool, kBytes, kU8, kU32, kU64, kInt, kStruct:
+			default:
+				t.refuse(vs, "variable of type %s", declared)
+			}
+		} else if len(vs.Values) == 0 {
+			t.refuse(vs, "var without a type and without a value")
+		}
+		seen := map[string]bool{}
+		for _, n := range vs.Names {
+			if n.Name == "_" || seen[n.Name] {
+				t.refuse(n, "var name %s", n.Name)
+			}
+			seen[n.Name] = true
+			if t.isLocal(n.Name) {
+				t.refuse(n, "var %s redeclares or shadows a variable in scope", n.Name)
+			}
+		}
+		var terms []string
+		var tys []gtype
+		for i := range vs.Names {
+			ty := declared
+			if len(vs.Values) == 0 {
+				terms = append(terms, t.zeroOf(ty, vs))
+			} else {
+				if ty.k == kNone {
+					ty = t.typeOf(vs.Values[i])
+					if ty.k == kUntyped {
+						ty = gtype{k: kInt}
+					}
+					switch ty.k {
+					case kBool, kBytes, kU8, kU32, kU64, kInt, kStruct:
+					default:
+						t.refuse(vs, "variable of type %s", ty)
+					}
+				}
+				term := t.expr(vs.Values[i], ty)
+				out += t.flush(ind)
+				if len(vs.Names) > 1 {
+					n := t.tmp()
+					out += fmt.Sprintf("%slet %s := %s in\n", ind, n, term)
+					term = n
+				}
+				terms = append(terms, term)
+			}
+			tys = append(tys, ty)
+		}
+		for i, n := range vs.Names {
+			out += fmt.Sprintf("%slet %s := %s in\n", ind, vname(n.Name), terms[i])
+			t.env[n.Name] = &varInfo{typ: tys[i]}
+		}
+	}
+	return out
 }
 
 func (t *tr) ifStmt(x *ast.IfStmt, rest []ast.Stmt, m mode, ind string) string {
@@ -2027,10 +2394,18 @@ func coqQuote(s string) string {
 func (g *pureGen) translate(w whiteEntry, pp *purePkg) *fnResult {
 	name := w.coqName()
 	if r, ok := g.done[name]; ok {
+		// (a method T.M and a plain function T_M would share the Gallina name T_M)
+		if g.donePkg[name] != pp.dir+":"+w.key() {
+			return &fnResult{why: "the name " + name + " is used by two functions"}
+		}
 		return r
 	}
 	if g.busy[name] {
 		return &fnResult{why: "recursive"}
+	}
+	if !validCoqFunctionName(name) {
+		// nothing is emitted under this name (a definition `<name>_unrecognised` could itself collide)
+		return &fnResult{why: "the function name " + name + " collides with the vocabulary of the generated text"}
 	}
 	g.busy[name] = true
 	defer func() { g.busy[name] = false }()
@@ -2109,16 +2484,33 @@ func (g *pureGen) translate(w whiteEntry, pp *purePkg) *fnResult {
 			t.refuse(fd, "function without a result")
 		}
 		var rts []string
+		prelude := ""
 		for _, f := range fd.Type.Results.List {
-			if len(f.Names) > 0 {
-				t.refuse(f, "named result")
-			}
 			ty := t.parseType(f.Type, "result")
-			t.results = append(t.results, ty)
-			rts = append(rts, ty.coq())
+			if len(f.Names) == 0 {
+				t.results = append(t.results, ty)
+				rts = append(rts, ty.coq())
+			}
+			// "named results ... are initialized to the zero values for their types upon entry to the function"
+			for _, n := range f.Names {
+				if n.Name == "_" {
+					t.refuse(n, "blank named result")
+				}
+				if t.isLocal(n.Name) {
+					t.refuse(n, "duplicate parameter / result name")
+				}
+				t.results = append(t.results, ty)
+				rts = append(rts, ty.coq())
+				t.named = append(t.named, n.Name)
+				prelude += fmt.Sprintf("  let %s := %s in\n", vname(n.Name), t.zeroOf(ty, n))
+				t.env[n.Name] = &varInfo{typ: ty}
+			}
+		}
+		if len(t.named) != 0 && len(t.named) != len(t.results) {
+			t.refuse(fd, "named and unnamed results mixed")
 		}
 		res.sig.results = t.results
-		body := t.block(fd.Body.List, mode{k: mFunc}, "  ")
+		body := prelude + t.block(fd.Body.List, mode{k: mFunc}, "  ")
 		rt := strings.Join(rts, " * ")
 		if len(rts) > 1 {
 			rt = "(" + rt + ")"
@@ -2134,13 +2526,14 @@ func (g *pureGen) translate(w whiteEntry, pp *purePkg) *fnResult {
 		res.text = sb.String()
 	}()
 	g.done[name] = res
+	g.donePkg[name] = pp.dir + ":" + w.key()
 	g.order = append(g.order, name)
 	return res
 }
 
 func genPure(repo, outDir string) {
 	g := &pureGen{repo: repo, modPath: readModulePath(repo), pkgs: map[string]*purePkg{}, done: map[string]*fnResult{},
-		busy: map[string]bool{}, records: map[string]string{}, recWhy: map[string]string{}, recPkg: map[string]string{}, views: map[string]*viewInfo{}}
+		busy: map[string]bool{}, donePkg: map[string]string{}, records: map[string]string{}, recWhy: map[string]string{}, recPkg: map[string]string{}, views: map[string]*viewInfo{}}
 	g.pkgs[""] = loadPurePkg(repo, g.modPath, "", g.modPath, "")
 	g.pkgs["builtInFunctions"] = loadPurePkg(repo, g.modPath, "builtInFunctions", g.modPath+"/builtInFunctions", "bif_")
 	seen := map[string]bool{}
@@ -2159,6 +2552,9 @@ func genPure(repo, outDir string) {
 	o.p("From Coq.Strings Require Import String.")
 	o.p("From EV Require Import Base.Bytes gen.Consts Base.GoSem.")
 	o.p("Import GoNotations.")
+	o.p("(* every generated function is registered for `autounfold with pure_gen`: the tie proofs open the helpers that")
+	o.p("   the translated roots call, whatever their names are *)")
+	o.p("Create HintDb pure_gen.")
 	o.p("")
 	o.p("Module P.")
 	for _, r := range g.recOrder {
@@ -2189,6 +2585,9 @@ func genPure(repo, outDir string) {
 	for _, n := range g.order {
 		o.p("")
 		o.p("%s", g.done[n].text)
+		if g.done[n].ok {
+			o.p("#[global] Hint Unfold %s : pure_gen.", n)
+		}
 	}
 	o.p("")
 	o.p("End P.")
